@@ -1,5 +1,330 @@
 /-
-  Props/C20.lean — property theorems for C20 (stub; to be filled in).
+  Props/C20.lean — C20: concurrent use of a class from several threads equals some sequential order.
+
+  The model (Sem/Sched.lean) is an interleaving semantics of thread programs over the shared scratch cells that
+  typedpy's collection validators write (`Field._name` of item / key / value / option fields).  The full statement
+  is FALSE of the model and of the code (`C20_statement`, refuted by the kernel-checked counter-schedules below,
+  which the `sched` harness suite replays on the real code).  What is proved, for ALL schedules of any length and any
+  number of threads, is the conditional non-interference theorem and its sharper cell-wise form; the generated
+  table obligation `tables_ok` is what a NEW shared write breaks.
+
+  Partial: real CPython pre-emption happens between bytecodes and under the GIL; the model (and the harness) pre-empt
+  at statement / line boundaries only.
 -/
+import TypedpyModel.Lemmas.Sched
+import TypedpyModel.Generated.SharedWrites
+import TypedpyModel.Pinned.SharedWrites
 namespace Typedpy.C20
+open Typedpy.Sched
+
+/-- every thread that has finished after the schedule returned / raised exactly what it does when run alone -/
+def Linearizable (sh : Shared) (progs : List (List Step)) : Prop :=
+  ∀ (sched : List Nat) (i : Nat) (r : Outcome),
+    resultAt (run (Cfg.init sh progs) sched) i = some r →
+    ∃ p, progs[i]? = some p ∧ sequentialResult sh p = some r
+
+/-- C20 at full strength for the validation programs of the collection fields: any initial content of the scratch
+    cells, any number of concurrent calls, any schedule.  FALSE — see the counter-schedule theorems. -/
+def C20_statement : Prop :=
+  ∀ (sh : Shared) (calls : List Call), Linearizable sh (calls.map Call.prog)
+
+/-! ### the general theorems -/
+
+theorem init_get {sh : Shared} {progs : List (List Step)} {i : Nat} {t : TState}
+    (h : (Cfg.init sh progs).threads[i]? = some t) : ∃ p, progs[i]? = some p ∧ t = TState.init p := by
+  simp only [Cfg.init, List.getElem?_map] at h
+  cases hp : progs[i]? with
+  | none => simp [hp] at h
+  | some p => exact ⟨p, rfl, by simpa [hp] using h.symm⟩
+
+theorem result_of_alone {sh : Shared} {p : List Step} {n : Nat} {r : Outcome}
+    (h : (alone sh (TState.init p) n).2.result = some r) : sequentialResult sh p = some r := by
+  rw [← result_of_done sh p n]
+  · exact h
+  · generalize (alone sh (TState.init p) n).2 = t at h
+    unfold TState.result at h
+    unfold TState.done
+    cases he : t.err with
+    | some e => simp
+    | none =>
+      simp only [he] at h
+      by_cases hp : t.prog.isEmpty
+      · simp [hp]
+      · simp [hp] at h
+
+/-- State-level frame theorem: if no step of any program writes shared state, then for EVERY schedule (any length, any
+    number of threads) the shared store is unchanged and every thread is exactly in the state it reaches alone after
+    as many steps as it was scheduled. -/
+theorem no_shared_writes_frame (sh : Shared) (progs : List (List Step))
+    (h : ∀ p ∈ progs, ∀ s ∈ p, s.writesShared = false) (sched : List Nat) :
+    (run (Cfg.init sh progs) sched).shared = sh ∧
+    ∀ i p, progs[i]? = some p →
+      (run (Cfg.init sh progs) sched).threads[i]? = some (alone sh (TState.init p) (sched.count i)).2 := by
+  have hro : ∀ t ∈ (Cfg.init sh progs).threads, readOnlyT t := by
+    intro t ht
+    simp only [Cfg.init, List.mem_map] at ht
+    obtain ⟨p, hp, rfl⟩ := ht
+    exact h p hp
+  obtain ⟨h1, h2⟩ := run_readOnly sched (Cfg.init sh progs) hro
+  refine ⟨h1, fun i p hp => ?_⟩
+  exact h2 i (TState.init p) (by simp [Cfg.init, hp])
+
+/-- The general non-interference theorem: no shared writes ⇒ linearizable, for every schedule. -/
+theorem no_shared_writes_linearizable (sh : Shared) (progs : List (List Step))
+    (h : ∀ p ∈ progs, ∀ s ∈ p, s.writesShared = false) : Linearizable sh progs := by
+  intro sched i r hr
+  unfold resultAt at hr
+  cases ht : (run (Cfg.init sh progs) sched).threads[i]? with
+  | none => simp [ht] at hr
+  | some t =>
+    simp only [ht] at hr
+    cases hp : progs[i]? with
+    | none =>
+      have := (no_shared_writes_frame sh progs h sched).2
+      -- thread i does not exist: the thread list has the length of `progs` at every point
+      have hlen : ∀ (sched : List Nat) (cfg : Cfg), (run cfg sched).threads.length = cfg.threads.length := by
+        intro sched
+        induction sched with
+        | nil => intro cfg; rfl
+        | cons j rest ih =>
+          intro cfg
+          rw [run_cons, ih]
+          cases hj : cfg.threads[j]? with
+          | none => rw [stepAt_none hj]
+          | some tj => rw [stepAt_some hj]; simp
+      have h1 : i < (run (Cfg.init sh progs) sched).threads.length := (List.getElem?_eq_some_iff.mp ht).1
+      rw [hlen] at h1
+      have h2 : progs.length ≤ i := List.getElem?_eq_none_iff.mp hp
+      simp [Cfg.init] at h1
+      omega
+    | some p =>
+      refine ⟨p, rfl, ?_⟩
+      have := (no_shared_writes_frame sh progs h sched).2 i p hp
+      rw [ht] at this
+      have ht' : t = (alone sh (TState.init p) (sched.count i)).2 := Option.some.inj this
+      rw [ht'] at hr
+      exact result_of_alone hr
+
+/-- Thread-private frame (cell-wise): if the OTHER threads write none of the cells that thread `i` reads, then for EVERY
+    schedule thread `i` is exactly in the state it reaches alone after as many steps as it was scheduled — whatever the
+    other threads do to other cells, and whatever thread `i` itself writes. -/
+theorem thread_private_frame (sh : Shared) (progs : List (List Step)) (i : Nat) (p : List Step)
+    (hp : progs[i]? = some p)
+    (hdisj : ∀ j q, j ≠ i → progs[j]? = some q → ∀ c ∈ writeCells q, c ∉ readCells p)
+    (sched : List Nat) :
+    (run (Cfg.init sh progs) sched).threads[i]? = some (alone sh (TState.init p) (sched.count i)).2 := by
+  have hi : (Cfg.init sh progs).threads[i]? = some (TState.init p) := by simp [Cfg.init, hp]
+  have hav : othersAvoid (Cfg.init sh progs) i (readCells p) := by
+    intro j tj hj htj
+    obtain ⟨q, hq, rfl⟩ := init_get htj
+    exact hdisj j q hj hq
+  exact (run_noninterference (readCells p) i sched (Cfg.init sh progs) (TState.init p) sh hi
+    (fun c hc => hc) hav (fun _ _ => rfl)).1
+
+/-- programs are conflict free when no program writes a cell another program reads -/
+def ConflictFree (progs : List (List Step)) : Prop :=
+  ∀ (i j : Nat) (p q : List Step), i ≠ j → progs[i]? = some p → progs[j]? = some q → ∀ c ∈ writeCells q, c ∉ readCells p
+
+theorem conflict_free_linearizable (sh : Shared) (progs : List (List Step)) (h : ConflictFree progs) :
+    Linearizable sh progs := by
+  intro sched i r hr
+  unfold resultAt at hr
+  cases ht : (run (Cfg.init sh progs) sched).threads[i]? with
+  | none => simp [ht] at hr
+  | some t =>
+    simp only [ht] at hr
+    cases hp : progs[i]? with
+    | none =>
+      have hlen : ∀ (sched : List Nat) (cfg : Cfg), (run cfg sched).threads.length = cfg.threads.length := by
+        intro sched
+        induction sched with
+        | nil => intro cfg; rfl
+        | cons j rest ih =>
+          intro cfg
+          rw [run_cons, ih]
+          cases hj : cfg.threads[j]? with
+          | none => rw [stepAt_none hj]
+          | some tj => rw [stepAt_some hj]; simp
+      have h1 : i < (run (Cfg.init sh progs) sched).threads.length := (List.getElem?_eq_some_iff.mp ht).1
+      rw [hlen] at h1
+      have h2 : progs.length ≤ i := List.getElem?_eq_none_iff.mp hp
+      simp [Cfg.init] at h1
+      omega
+    | some p =>
+      refine ⟨p, rfl, ?_⟩
+      have := thread_private_frame sh progs i p hp
+        (fun j q hj hq => h i j p q (Ne.symm hj) hp hq) sched
+      rw [ht] at this
+      have ht' : t = (alone sh (TState.init p) (sched.count i)).2 := Option.some.inj this
+      rw [ht'] at hr
+      exact result_of_alone hr
+
+/-- `conflictFreeB` (Sem/Sched.lean) is the decidable form of `ConflictFree` -/
+theorem conflictFreeB_sound {progs : List (List Step)} (h : conflictFreeB progs = true) : ConflictFree progs := by
+  intro i j p q hij hp hq c hc hr
+  have hi : i < progs.length := (List.getElem?_eq_some_iff.mp hp).1
+  have hj : j < progs.length := (List.getElem?_eq_some_iff.mp hq).1
+  simp only [conflictFreeB, List.all_eq_true, List.mem_range] at h
+  have h1 := h i hi j hj
+  have hp' : progs.getD i [] = p := by simp [List.getD, hp]
+  have hq' : progs.getD j [] = q := by simp [List.getD, hq]
+  rw [hp', hq'] at h1
+  simp only [Bool.or_eq_true, beq_iff_eq] at h1
+  rcases h1 with h1 | h1
+  · exact hij h1
+  · simp only [disjointB, List.all_eq_true] at h1
+    have := h1 c hc
+    simp [hr] at this
+
+/-- C20 restricted by the explicit decidable exclusion of the known-finding region: concurrent calls that do not go
+    through a common scratch cell (no Field object of a racy site is used by two of the threads) are linearizable, for
+    every schedule and any number of threads. -/
+theorem C20_partial (sh : Shared) (calls : List Call) (h : conflictFreeB (calls.map Call.prog) = true) :
+    Linearizable sh (calls.map Call.prog) :=
+  conflict_free_linearizable sh _ (conflictFreeB_sound h)
+
+/-- Clause 1 of C20 holds in the model for EVERY schedule and every set of programs, racy or not: the result of a thread
+    only contains values of that thread's own input (the temp structures are thread-private; what the race corrupts is
+    WHICH of the thread's own elements is read back, or whether one is found at all). -/
+theorem no_foreign_values (sh : Shared) (progs : List (List Step)) (sched : List Nat) (i : Nat) (p : List Step)
+    (out : List Int) (hp : progs[i]? = some p)
+    (hr : resultAt (run (Cfg.init sh progs) sched) i = some (.ok out)) : ∀ v ∈ out, v ∈ progVals p := by
+  unfold resultAt at hr
+  cases ht : (run (Cfg.init sh progs) sched).threads[i]? with
+  | none => simp [ht] at hr
+  | some t =>
+    simp only [ht] at hr
+    have hinv := run_ownOnly (fun k => progVals (progs.getD k [])) sched (Cfg.init sh progs) (by
+      intro k tk hk
+      simp only [Cfg.init, List.getElem?_map] at hk
+      cases hq : progs[k]? with
+      | none => simp [hq] at hk
+      | some q =>
+        simp only [hq, Option.map_some, Option.some.injEq] at hk
+        subst hk
+        have : progs.getD k [] = q := by simp [List.getD, hq]
+        simp only [this]
+        exact ⟨by simp [TState.init], by simp [TState.init], fun v hv => hv⟩) i t ht
+    have hpi : progs.getD i [] = p := by simp [List.getD, hp]
+    simp only [hpi] at hinv
+    unfold TState.result at hr
+    cases he : t.err with
+    | some e => simp [he] at hr
+    | none =>
+      simp only [he] at hr
+      split at hr
+      · have : t.out = out := by
+          have := Option.some.inj hr
+          exact Outcome.ok.inj this
+        rw [← this]
+        exact hinv.2.1
+      · exact absurd hr (by simp)
+
+/-! ### kernel-checked counter-schedules (each is replayed on the real code by the `sched` suite) -/
+
+def sh0 : Shared := Shared.ofList []
+
+/-- two constructors of a class with `a = Array[Integer]` (or `Deque[Integer]`): `S(a=[10])` ∥ `S(a=[20,21,22])` -/
+def arrA : List Step := progHomog 0 "a" true [(10, true)]
+def arrB : List Step := progHomog 0 "a" true [(20, true), (21, true), (22, true)]
+
+/-- site `array.py:extract_field_value`: thread 1 silently returns `[20, 20, 22]` -/
+theorem counter_wrong_element_extract_field_value :
+    resultAt (run (Cfg.init sh0 [arrA, arrB]) [1,1,1,1,1,1,1,0,0,0,1,1,1,1,0,0]) 1 = some (.ok [20, 20, 22]) ∧
+    sequentialResult sh0 arrB = some (.ok [20, 21, 22]) := by decide
+
+/-- site `array.py:extract_field_value`: thread 0 raises AttributeError `a_2` for the valid input `[10]` -/
+theorem counter_missing_key_extract_field_value :
+    resultAt (run (Cfg.init sh0 [arrA, arrB]) [0,0,0,0,1,1,1,1,1,1,1,1,1,0]) 0 = some (.raised (.missing "a_2")) ∧
+    sequentialResult sh0 arrA = some (.ok [10]) := by decide
+
+/-- site `array.py:extract_field_value`: the error of thread 0's invalid `[-1]` names element `a_1` of the other thread -/
+theorem counter_wrong_field_named_extract_field_value :
+    resultAt (run (Cfg.init sh0 [progHomog 0 "a" true [(-1, false)], arrB]) [0,0,0,1,1,1,1,1,1,0]) 0
+      = some (.raised (.invalid "a_1")) ∧
+    sequentialResult sh0 (progHomog 0 "a" true [(-1, false)]) = some (.raised (.invalid "a_0")) := by decide
+
+theorem not_linearizable_extract_field_value : ¬ Linearizable sh0 [arrA, arrB] := by
+  intro h
+  obtain ⟨p, hp, hs⟩ := h [1,1,1,1,1,1,1,0,0,0,1,1,1,1,0,0] 1 (.ok [20, 20, 22])
+    counter_wrong_element_extract_field_value.1
+  have : p = arrB := by simpa using hp.symm
+  rw [this, counter_wrong_element_extract_field_value.2] at hs
+  exact absurd hs (by decide)
+
+/-- site `tuple_field.py:Tuple.__set__` (homogeneous `Tuple[Integer]`): wrong element without any error -/
+theorem counter_wrong_element_tuple :
+    resultAt (run (Cfg.init sh0 [progHomog 0 "a" false [(10, true)],
+        progHomog 0 "a" false [(20, true), (21, true), (22, true)]]) [1,1,1,1,1,1,0,0,1,1,1,1,0,0]) 1
+      = some (.ok [20, 20, 22]) ∧
+    sequentialResult sh0 (progHomog 0 "a" false [(20, true), (21, true), (22, true)]) = some (.ok [20, 21, 22]) := by
+  decide
+
+/-- site `set_field.py:Set.__set__`, one item Field instance used by the fields `a` and `b` of a class:
+    thread 0 (assigning `a`) raises AttributeError `b` -/
+theorem counter_missing_key_set :
+    resultAt (run (Cfg.init sh0 [progSet 0 "a" [(1, true)], progSet 0 "b" [(2, true)]]) [0,0,0,1,0]) 0
+      = some (.raised (.missing "b")) ∧
+    sequentialResult sh0 (progSet 0 "a" [(1, true)]) = some (.ok [1]) := by decide
+
+/-- site `map_field.py:Map.__set__`, key/value Field instances shared by the fields `a` and `b` -/
+theorem counter_missing_key_map :
+    resultAt (run (Cfg.init sh0 [progMap 0 1 "a" [((1, true), (2, true))], progMap 0 1 "b" [((3, true), (4, true))]])
+        [0,0,0,0,0,1,1,0]) 0 = some (.raised (.missing "b_value")) ∧
+    sequentialResult sh0 (progMap 0 1 "a" [((1, true), (2, true))]) = some (.ok [2, 1]) := by decide
+
+/-- sites `array.py:Array.__set__`, `deque_field.py:Deque.__set__`, `tuple_field.py:Tuple.__set__` with positional
+    items whose Field instances are shared by the fields `a` and `b` -/
+theorem counter_missing_key_positional :
+    resultAt (run (Cfg.init sh0 [progPos 0 "a" 2 [(1, true), (2, true)], progPos 0 "b" 2 [(3, true), (4, true)]])
+        [0,0,0,1,1,0]) 0 = some (.raised (.missing "b_0")) ∧
+    sequentialResult sh0 (progPos 0 "a" 2 [(1, true), (2, true)]) = some (.ok [1, 2]) := by decide
+
+/-- the full statement is false -/
+theorem C20_statement_false : ¬ C20_statement := by
+  intro h
+  apply not_linearizable_extract_field_value
+  have := h sh0 [Call.homog 0 "a" true [(10, true)], Call.homog 0 "a" true [(20, true), (21, true), (22, true)]]
+  exact this
+
+/-! ### the table obligation -/
+
+/-- call sites whose shared write is a known finding (must equal the keys of known_findings_C20.json) -/
+def knownFindingKeys : List String := [
+  "shared-_name:array.py:extract_field_value",
+  "shared-_name:array.py:Array.__set__",
+  "shared-_name:deque_field.py:Deque.__set__",
+  "shared-_name:tuple_field.py:Tuple.__set__",
+  "shared-_name:set_field.py:Set.__set__",
+  "shared-_name:set_field.py:ImmutableSet.__set__",
+  "shared-_name:map_field.py:Map.__set__",
+  "shared-_name:multified_wrappers.py:AllOf.__set__",
+  "shared-_name:multified_wrappers.py:AnyOf.__set__",
+  "shared-_name:multified_wrappers.py:OneOf.__set__",
+  "shared-_name:multified_wrappers.py:NotField.__set__"
+]
+
+/-- every shared write in the CURRENT working tree is either harmless (every thread writes an equivalent value) or a
+    listed finding.  A new shared scratch write breaks this obligation. -/
+theorem tables_ok : ∀ r ∈ Generated.sharedWrites, r.safe = true ∨ r.key ∈ knownFindingKeys := by decide
+
+/-- the same obligation on the committed snapshot of the table (keeps `Pinned/` compiled and reviewable) -/
+theorem pinned_tables_ok : ∀ r ∈ Pinned.sharedWrites, r.safe = true ∨ r.key ∈ knownFindingKeys := by decide
+
+/-- the table is not empty and really contains the racy site (non-vacuity of `tables_ok`) -/
+theorem tables_nonvacuous :
+    (Generated.sharedWrites.filter fun r => !r.safe).length ≥ 1 ∧
+    (Generated.sharedWrites.any fun r => r.key == "shared-_name:array.py:extract_field_value") = true := by decide
+
+/-! ### non-vacuity of the positive theorems -/
+
+/-- two calls on different cells (e.g. `Array[Integer]` fields of two different classes): conflict free, and a fully
+    interleaved schedule gives both threads their sequential results -/
+theorem linearizable_example :
+    conflictFreeB [progHomog 0 "a" true [(10, true)], progHomog 1 "a" true [(20, true), (21, true)]] = true ∧
+    resultAt (run (Cfg.init sh0 [progHomog 0 "a" true [(10, true)], progHomog 1 "a" true [(20, true), (21, true)]])
+      [0,1,0,1,0,1,0,1,0,1,1,1,1]) 0 = some (.ok [10]) ∧
+    resultAt (run (Cfg.init sh0 [progHomog 0 "a" true [(10, true)], progHomog 1 "a" true [(20, true), (21, true)]])
+      [0,1,0,1,0,1,0,1,0,1,1,1,1]) 1 = some (.ok [20, 21]) := by decide
+
 end Typedpy.C20
